@@ -6,3 +6,4 @@ import AcryoVerif.Props.C16
 import AcryoVerif.Props.C05
 import AcryoVerif.Props.C04
 import AcryoVerif.Props.C07
+import AcryoVerif.Props.C09
